@@ -1,6 +1,7 @@
 package rules
 
 import (
+	"go/token"
 	"fmt"
 	"go/types"
 	"sort"
@@ -307,16 +308,16 @@ func checkHandshakeMatcher(c *Ctx) {
 	}
 	fn := core.FuncName(f)
 	roles := roleTable["sack.sackDriver"]
-	rps, _ := core.ReturnPaths(c.P, f, 5000)
 	n := 0
-	for _, rp := range rps {
+	// inlined paths: the flow / flag tests may sit in helpers of the driver's package, whatever their signature
+	for _, ip := range InlinedPaths(c.P, f, inlineOpts{pkg: core.FuncPkg(f), stop: hasLoop, maxDepth: 4}) {
 		sets := false
-		for _, b := range rp.Path.Blocks {
-			for _, in := range b.Instrs {
-				if st, ok := in.(*ssa.Store); ok {
-					if fa, ok := st.Addr.(*ssa.FieldAddr); ok && fa.X == ssa.Value(f.Params[0]) && core.FieldName(fa) == "state" {
-						sets = true
-					}
+		var pos token.Pos
+		for _, ev := range ip.Events {
+			if st, ok := ev.Instr.(*ssa.Store); ok && ev.Kind == "store" {
+				if fa, ok := st.Addr.(*ssa.FieldAddr); ok && core.FieldName(fa) == "state" && isNamed(fa.X.Type(), core.ModulePath+"/sack", "sackDriver") {
+					sets = true
+					pos = st.Pos()
 				}
 			}
 		}
@@ -324,18 +325,8 @@ func checkHandshakeMatcher(c *Ctx) {
 			continue
 		}
 		n++
-		// predicate helpers of the driver (a ports-match method, ...) are opened; every resulting variant must carry the checks
-		var sackD Driver
-		for _, d := range Drivers(c.P) {
-			if d.Pkg == "sack" {
-				sackD = d
-			}
-		}
-		for _, av := range expandHelperAtoms(c.P, sackD, rp.Atoms, 0) {
-			vatoms := av.resolved()
-			if !core.Feasible(vatoms) {
-				continue
-			}
+		{
+			vatoms := ip.Atoms
 			eqs := pathEqs(vatoms)
 			var missing []string
 			for name, chk := range map[string]struct {
@@ -359,7 +350,11 @@ func checkHandshakeMatcher(c *Ctx) {
 				missing = append(missing, "transport layer is TCP")
 			}
 			sort.Strings(missing)
-			R.Check(len(missing) == 0, "R01.8", fn+"#handshake-accept", rp.Ret.Pos(), fn, "handshake state is taken only from a SYN-ACK on the probed flow", "handshake state can be set from a packet without: "+strings.Join(missing, "; ")+" (every later SACK/ICMP match is relative to these sequence numbers)")
+			if len(missing) == 0 {
+				R.OK("R01.8", fn+"#handshake-accept", pos, fn, "handshake state is taken only from a SYN-ACK on the probed flow")
+			} else {
+				R.FailPath("R01.8", fn+"#handshake-accept", pos, fn, "handshake state can be set from a packet without: "+strings.Join(missing, "; ")+" (every later SACK/ICMP match is relative to these sequence numbers)", ip.Desc)
+			}
 		}
 	}
 	R.Floor("R01.8:state-setting-paths", n, 1)
@@ -403,10 +398,8 @@ func accessorRangeChecks(c *Ctx, call *core.Term, key *core.Term) bool {
 		return false
 	}
 	param := f.Params[pi]
-	rps, ok := core.ReturnPaths(c.P, f, 2000)
-	if !ok {
-		return false
-	}
+	// inlined paths: part of the range check may sit in the table type's own accessor (`k >= len(t.slots)`)
+	rps := InlinedPaths(c.P, f, inlineOpts{pkg: core.FuncPkg(f), stop: hasLoop})
 	n := 0
 	for _, rp := range rps {
 		last := rp.Results[len(rp.Results)-1]
@@ -428,6 +421,9 @@ func accessorRangeChecks(c *Ctx, call *core.Term, key *core.Term) bool {
 				lo = true
 			}
 			if !nn.Sign && cnd.Name == ">" && isP(l) && !isP(r) {
+				hi = true
+			}
+			if !nn.Sign && cnd.Name == ">=" && isP(l) && !isP(r) || nn.Sign && cnd.Name == "<" && isP(l) && !isP(r) {
 				hi = true
 			}
 			if nn.Sign && cnd.Name == ">=" && isP(l) {
